@@ -4,6 +4,7 @@
        events: C it | G <cfg> | S <cfg> | F f | R it0
    VEL dt n (t x)*                     -> hex values of v_<name>
    RUNAVE L stride it0 n (t x)*        -> "t av var sd ; ..."
+   OUT restartfreq it_restart nb (b f)* nev (C it | E it)*   -> "state@it colvar@it b0@it .."
    RUNAVEV kind [period] L stride it0 dim n (t x{dim})* -> "t av,av,.. var sd ; ..."
    ACF type normalize len stride off dim n (t self{dim} other{dim})*  -> "nframes | lag val ; ..." *)
 open Model
@@ -86,6 +87,14 @@ let () =
            let r = runave_run fops l stride it0 r0 None h in
            Printf.printf "%s\n" (String.concat " ; " (List.map (fun (((t, av), var), sd) ->
                Printf.sprintf "%d %s %s %s" (int_of_nat t) (hex av) (hex var) (hex sd)) r))
+         | "OUT" ->
+           let rf = nz () in let itr = nz () in let nbs = ni () in
+           let bs = List.init nbs (fun _ -> let b = nz () in let f = nz () in (b, f)) in
+           let nev = ni () in
+           let evs = List.init nev (fun _ -> match next () with "C" -> OCalc (nz ()) | _ -> OEnd (nz ())) in
+           let w = out_run { oc_restart_freq = rf; oc_it_restart = itr; oc_biases = bs } evs in
+           Printf.printf "%s\n" (String.concat " " (List.map (fun (it, f) ->
+               (match f with FState -> "state" | FColvar -> "colvar" | FBias b -> "b" ^ string_of_int (int_of_z b)) ^ "@" ^ string_of_int (int_of_z it)) w))
          | "RUNAVEV" ->
            let kind = (match next () with
                | "scalar" -> KScalar | "periodic" -> let p = nf () in KPeriodic (p, 0.0) | "vector3" -> KVector3 | _ -> KUnit3) in
